@@ -13,9 +13,16 @@ ASSUME = ["canonicity on the code is checked edge-wise: normal_form of a diagram
 
 
 def run(tier, seed, t0):
+    # deeper exhaustive machine over two generators (connected diagrams with tie pairs, up to 5-6 boxes)
+    covt, rejt = _diagapi.run("C06", "J06", tier, seed, t0, cls="tie", invariants=["InvWellTyped", "InvNormalForm"], drift=True)
     cov, rej = _diagapi.run("C06", "J06", tier, seed, t0, invariants=["InvWellTyped", "InvNormalForm"],
                             drift=True, families=True)
-    return core.finish("C06", tier, seed, LEVEL, cov, rej, t0, ASSUME)
+    cov["tie_machine"] = {k: covt[k] for k in ("states", "transitions", "traces_validated_against_impl", "model", "replay",
+                                               "verdicts_by_clause", "canary", "model_drift")}
+    cov["states"] += covt["states"]
+    cov["transitions"] += covt["transitions"]
+    cov["traces_validated_against_impl"] += covt["traces_validated_against_impl"]
+    return core.finish("C06", tier, seed, LEVEL, cov, rej + rejt, t0, ASSUME)
 
 
 def replay(path):
